@@ -99,6 +99,24 @@ Theorem C05_resync_ztunnel : forall W st (r : dreq) (M0 : cmap) n1 n2,
 Proof. exact resync_wds. Qed.
 Print Assumptions C05_resync_ztunnel.
 
+(* C05_resync, ztunnel workload Authorization type (AUTHZ = type.googleapis.com/istio.security.Authorization,
+   real WorkloadRBACGenerator: removed = w.ResourceNames - existing policies): for every retained set of
+   policies reported through initial_resource_versions - the type is NOT generator-managed, so the
+   retained names are recorded and handed to the generator as the watched names - the single answer
+   carries every current policy and removed_resources contains every retained policy that was deleted
+   while ztunnel was away; the client ends with exactly the current policies. *)
+Theorem C05_resync_ztunnel_authz : forall W st (r : dreq) (M0 : cmap) n1 n2,
+  d_ty r = AUTHZ -> st AUTHZ = None -> d_err r = None ->
+  d_init r = rnames M0 ->
+  (forall x, In x (rnames M0) -> ~ In x (d_unsub r) /\ x <> star) ->
+  exists d st',
+    process_delta_request (rbac_gen W) st r M0 n1 n2 = ([d], st') /\
+    dr_ty d = AUTHZ /\
+    map_eq (apply_delta M0 d) (W AUTHZ) /\
+    (forall x, In x (rnames M0) -> lookup (W AUTHZ) x = None -> In x (dr_removed d)).
+Proof. exact resync_authz. Qed.
+Print Assumptions C05_resync_ztunnel_authz.
+
 (* warming dependency, SotW: a CDS (re)subscription on a stream that already watches EDS arms the
    EDS watch, and the next EDS request on the current (or empty) nonce is answered although it is
    an ACK - nothing stays warming. *)
@@ -169,6 +187,15 @@ Example C05_ztunnel_example :
   | _ => False
   end.
 Proof. vm_compute. repeat split; reflexivity. Qed.
+
+Example C05_authz_example :
+  let W := fun t => if ty_eqb t AUTHZ then [(1, 0); (3, 0)] else [] in
+  let M0 := [(1, 0); (2, 0); (4, 0)] in
+  match process_delta_request (rbac_gen W) new_stream (mk_dreq AUTHZ [0] [] M0 7 None) M0 100 101 with
+  | ([d], _) => dr_removed d = [2; 4] /\ map_eqb (apply_delta M0 d) (W AUTHZ) = true
+  | _ => False
+  end.
+Proof. vm_compute. split; reflexivity. Qed.
 
 Example C05_missed_is_reachable_and_avoidable :
   y_missed (yrun (sys0 5) [LConn; LCommit; LSnap; LConn; LConn]) = true /\
